@@ -295,7 +295,22 @@ fn c03_e2e<S: ScancodeSet + Clone>(ctx: &mut Ctx, set_name: &str, mk: fn() -> S,
                     continue; // C04/C01 own that; here we only use states we could actually reach
                 }
                 for k in main_keys(l) {
-                    let Some(mkseq) = seq_of.get(&key_name(k)) else { continue };
+                    let Some(mkseq) = seq_of.get(&key_name(k)) else {
+                        // no byte sequence of this set decodes to a press of this character key although the standard table
+                        // gives it one: the key's characters cannot be typed on this layout at all
+                        if via == 0 && m == M_NUM && mode == HandleControl::Ignore {
+                            if let Some((tab, code)) = crate::refs::scancodes::ref_code(set, k) {
+                                let mut bytes: Vec<Op> = vec![];
+                                if tab == crate::refs::scancodes::E0 {
+                                    bytes.push(Op::Type(0xE0));
+                                }
+                                bytes.push(Op::Type(code));
+                                let base = guarded(|| map_direct(l, k, &mods_from_bits(M_NUM), mode));
+                                bads.push((l, m, mode, k, bytes, otext(&base), "no key event for this key (its standard scancode is not decoded to it)".to_string(), "base"));
+                            }
+                        }
+                        continue;
+                    };
                     let mut k2 = kb.clone();
                     let typed = guarded(|| {
                         let mut out = None;
@@ -371,10 +386,12 @@ pub fn c03(ctx: &mut Ctx) -> (u64, String) {
     c03_e2e::<ScancodeSet2>(ctx, "set2", ScancodeSet2::new, 2, 0);
     c03_e2e::<ScancodeSet2>(ctx, "set2", ScancodeSet2::new, 2, 1);
     c03_e2e::<ScancodeSet2>(ctx, "set2", ScancodeSet2::new, 2, 2);
+    c03_e2e::<ScancodeSet1>(ctx, "set1", ScancodeSet1::new, 1, 0);
     {
         let all: Vec<usize> = (0..N_LAYOUTS).collect();
         let deep = if ctx.thorough() { 2 } else { 1 };
-        decoder_family(ctx, "family:characters through EventDecoder after short histories", &all, &|l| main_keys(l), deep, |l, k, m, mode, out| {
+        let opts = FamOpts { max_inter: deep, mod_pairs: true, key_then_mod_pairs: true, modifier_keys: false };
+        decoder_family_opts(ctx, "family:characters through EventDecoder after short histories", &all, &|l| main_keys(l), opts, family_intermediates(), |l, k, m, mode, out| {
             if c03_caps_altgr_point(m, mode) {
                 let nc = m & !M_CAPS;
                 let out_nc = guarded(|| map_direct(l, k, &mods_from_bits(nc), mode));
@@ -392,7 +409,6 @@ pub fn c03(ctx: &mut Ctx) -> (u64, String) {
         });
     }
     if ctx.thorough() {
-        c03_e2e::<ScancodeSet1>(ctx, "set1", ScancodeSet1::new, 1, 0);
         c03_e2e::<ScancodeSet1>(ctx, "set1", ScancodeSet1::new, 1, 2);
     }
     ctx.sample_run("layout:direct:azerty", &["map:Q:16:Map", "map:Key2:144:Ignore"]);
@@ -922,20 +938,68 @@ pub fn c12(ctx: &mut Ctx) -> (u64, String) {
         ctx.set("informational_untypeable_with_capslock_on", json!(caps_missing));
     }
 
-    // through a real EventDecoder: the character must still be typeable as the very next key after any single key
-    // has been tapped at any of the three plain levels (a decoder that remembers the last key must not take a
-    // character away)
+    // through a real EventDecoder: every character must still be typeable right after any short "chord" history that ends
+    // with every key released: hold 0-2 of the seven momentary modifier keys (in any order), tap one key (any key when at
+    // most one modifier is held, a representative key or none when two are), release the modifiers in press order or in
+    // reverse; plus a double tap of each lock key and a complete Pause sequence. After such a history no modifier is
+    // held and no lock has changed, so the three plain levels must type exactly what the table promises (a decoder that
+    // remembers a key, or a modifier that gets stuck, takes characters away).
     {
         let level_keys: [Option<KeyCode>; 3] = [None, Some(KeyCode::LShift), Some(KeyCode::RAltGr)];
         let plain: Vec<KeyCode> = ALL_KEYS.iter().copied().filter(|k| !is_modifier_key(*k)).collect();
-        let results = par_chunks(N_LAYOUTS, |l| {
+        let momentary = [KeyCode::LShift, KeyCode::RShift, KeyCode::LControl, KeyCode::RControl, KeyCode::LAlt, KeyCode::RAltGr, KeyCode::RControl2];
+        let reps = [KeyCode::A, KeyCode::Q, KeyCode::Key7, KeyCode::Oem7, KeyCode::Delete, KeyCode::F2, KeyCode::Numpad7, KeyCode::NumpadPeriod, KeyCode::ArrowUp, KeyCode::PrintScreen, KeyCode::ScrollLock, KeyCode::Escape];
+        let mut hists: Vec<Vec<(KeyCode, KeyState)>> = vec![];
+        let mut push_hist = |mods: &[KeyCode], tapped: Option<KeyCode>, reverse: bool| {
+            let mut h: Vec<(KeyCode, KeyState)> = mods.iter().map(|m| (*m, KeyState::Down)).collect();
+            if let Some(k) = tapped {
+                h.push((k, KeyState::Down));
+                h.push((k, KeyState::Up));
+            }
+            let mut ups: Vec<KeyCode> = mods.to_vec();
+            if reverse {
+                ups.reverse();
+            }
+            h.extend(ups.iter().map(|m| (*m, KeyState::Up)));
+            hists.push(h);
+        };
+        for k in &plain {
+            push_hist(&[], Some(*k), false);
+        }
+        for m in momentary {
+            push_hist(&[m], None, false);
+            for k in &plain {
+                push_hist(&[m], Some(*k), false);
+            }
+        }
+        for a in momentary {
+            for b in momentary {
+                if a == b {
+                    continue;
+                }
+                for rev in [false, true] {
+                    push_hist(&[a, b], None, rev);
+                    for k in reps {
+                        push_hist(&[a, b], Some(k), rev);
+                    }
+                }
+            }
+        }
+        for lock in [KeyCode::CapsLock, KeyCode::NumpadLock] {
+            hists.push(vec![(lock, KeyState::Down), (lock, KeyState::Up), (lock, KeyState::Down), (lock, KeyState::Up)]);
+        }
+        hists.push(vec![(KeyCode::RControl2, KeyState::Down), (KeyCode::NumpadLock, KeyState::Down), (KeyCode::RControl2, KeyState::Up), (KeyCode::NumpadLock, KeyState::Up)]);
+        let n_hists = hists.len();
+        let results = par_chunks(N_LAYOUTS * 2, |i| {
+            let l = i / 2;
+            let mode = MODES[i % 2];
             let mut n = 0u64;
-            let mut bads: Vec<(usize, KeyCode, usize, char)> = vec![];
+            let mut bads: Vec<(usize, HandleControl, usize, char)> = vec![];
             // witnesses from the table: char -> list of (key, level)
             let mut wit: BTreeMap<char, Vec<(KeyCode, usize)>> = BTreeMap::new();
             for k in &plain {
                 for (li, (_, m)) in levels.iter().enumerate() {
-                    if let Ok(DecodedKey::Unicode(c)) = call(0, l, *k, &mods_from_bits(*m), HandleControl::MapLettersToUnicode) {
+                    if let Ok(DecodedKey::Unicode(c)) = call(0, l, *k, &mods_from_bits(*m), mode) {
                         if (' '..='~').contains(&c) {
                             wit.entry(c).or_default().push((*k, li));
                         }
@@ -955,25 +1019,29 @@ pub fn c12(ctx: &mut Ctx) -> (u64, String) {
                     r
                 })
             };
-            for hk in &plain {
-                for hl in 0..3 {
-                    let mut d0 = EventDecoder::new(Wrap(l as u8), HandleControl::MapLettersToUnicode);
-                    if tap(&mut d0, *hk, hl).is_err() {
-                        continue;
+            for (hi, h) in hists.iter().enumerate() {
+                let mut d0 = EventDecoder::new(Wrap(l as u8), mode);
+                if guarded(|| {
+                    for (k, st) in h {
+                        let _ = d0.process_keyevent(KeyEvent::new(*k, *st));
                     }
-                    for (c, ws) in &wit {
-                        let mut found = false;
-                        for (wk, wl) in ws {
-                            let mut d = d0.clone();
-                            n += 1;
-                            if tap(&mut d, *wk, *wl) == Ok(Some(DecodedKey::Unicode(*c))) {
-                                found = true;
-                                break;
-                            }
+                })
+                .is_err()
+                {
+                    continue;
+                }
+                for (c, ws) in &wit {
+                    let mut found = false;
+                    for (wk, wl) in ws {
+                        let mut d = d0.clone();
+                        n += 1;
+                        if tap(&mut d, *wk, *wl) == Ok(Some(DecodedKey::Unicode(*c))) {
+                            found = true;
+                            break;
                         }
-                        if !found && bads.len() < 6 {
-                            bads.push((l, *hk, hl, *c));
-                        }
+                    }
+                    if !found && bads.len() < 6 {
+                        bads.push((l, mode, hi, *c));
                     }
                 }
             }
@@ -982,19 +1050,12 @@ pub fn c12(ctx: &mut Ctx) -> (u64, String) {
         let mut n = 0;
         for (c, bads) in results {
             n += c;
-            for (l, hk, hl, ch) in bads {
-                let comp = format!("ed:wrap-{}:Map", LAYOUT_NAMES[l]);
-                let mut ops = vec![];
-                if let Some(mk) = level_keys[hl] {
-                    ops.push(Op::Key(mk, KeyState::Down));
-                }
-                ops.push(Op::Key(hk, KeyState::Down));
-                ops.push(Op::Key(hk, KeyState::Up));
-                if let Some(mk) = level_keys[hl] {
-                    ops.push(Op::Key(mk, KeyState::Up));
-                }
+            for (l, mode, hi, ch) in bads {
+                let comp = format!("ed:wrap-{}:{}", LAYOUT_NAMES[l], mode_name(mode));
+                let mut ops: Vec<Op> = hists[hi].iter().map(|(k, st)| Op::Key(*k, *st)).collect();
+                let htext: Vec<String> = ops.iter().map(|o| o.text()).collect();
                 // then the table's first witness, to show what comes out instead
-                let w = ALL_KEYS.iter().flat_map(|k| (0..3).map(move |li| (*k, li))).find(|(k, li)| call(0, l, *k, &mods_from_bits(levels[*li].1), HandleControl::MapLettersToUnicode) == Ok(DecodedKey::Unicode(ch)));
+                let w = ALL_KEYS.iter().flat_map(|k| (0..3).map(move |li| (*k, li))).find(|(k, li)| call(0, l, *k, &mods_from_bits(levels[*li].1), mode) == Ok(DecodedKey::Unicode(ch)));
                 if let Some((wk, wl)) = w {
                     if let Some(mk) = level_keys[wl] {
                         ops.push(Op::Key(mk, KeyState::Down));
@@ -1003,14 +1064,17 @@ pub fn c12(ctx: &mut Ctx) -> (u64, String) {
                 }
                 let obs = crate::replay::run_part(&comp, &ops).pop();
                 ctx.violation(
-                    &format!("{}/untypeable-after/{}-{}/U+{:04X}", LAYOUT_NAMES[l], key_name(hk), hl, ch as u32),
-                    &format!("[via EventDecoder] layout {}: right after tapping {:?} ({}), no key types {:?} at its unmodified, Shift or AltGr level any more", LAYOUT_NAMES[l], hk, levels[hl].0, ch),
+                    &format!("{}/untypeable-after-history/U+{:04X}", LAYOUT_NAMES[l], ch as u32),
+                    &format!(
+                        "[via EventDecoder, mode {}] layout {}: after the history [{}] (every key released again) no key types {:?} at its unmodified, Shift or AltGr level any more, although the layout table has it",
+                        mode_name(mode), LAYOUT_NAMES[l], htext.join(", "), ch
+                    ),
                     Replay::one(&comp, ops, &format!("Some(Unicode({:?}))", ch), obs),
                 );
             }
         }
         ctx.evaluations += n;
-        ctx.part("search:every character right after tapping any key at any plain level (EventDecoder)", json!({"layouts": 10, "histories_per_layout": plain.len() * 3, "presses_tried": n}));
+        ctx.part("search:every character right after every short chord history with all keys released (EventDecoder, both modes)", json!({"layouts": 10, "modes": 2, "histories_per_layout_and_mode": n_hists, "presses_tried": n}));
     }
     if ctx.thorough() {
         // each witness re-typed through EventDecoder by real key events
@@ -1153,7 +1217,7 @@ pub fn c15(ctx: &mut Ctx) -> (u64, String) {
     {
         let all: Vec<usize> = (0..N_LAYOUTS).collect();
         let deep = if ctx.thorough() { 2 } else { 1 };
-        let opts = FamOpts { max_inter: deep, mod_pairs: true, modifier_keys: false };
+        let opts = FamOpts { max_inter: deep, mod_pairs: true, key_then_mod_pairs: true, modifier_keys: false };
         decoder_family_opts(ctx, "family:numpad and editing keys through EventDecoder after short histories", &all, &|_l| c15_keys(), opts, family_intermediates(), |l, k, m, mode, out| {
             let ret = guarded(|| map_direct(l, KeyCode::Return, &mods_from_bits(m), mode));
             judge_c15(l, k, m, mode, out, &ret)
@@ -1210,7 +1274,7 @@ pub fn c16(ctx: &mut Ctx) -> (u64, String) {
     {
         let all: Vec<usize> = (0..N_LAYOUTS).collect();
         let deep = if ctx.thorough() { 2 } else { 1 };
-        let opts = FamOpts { max_inter: deep, mod_pairs: false, modifier_keys: true };
+        let opts = FamOpts { max_inter: deep, mod_pairs: false, key_then_mod_pairs: false, modifier_keys: true };
         decoder_family_opts(ctx, "family:raw keys through EventDecoder after short histories", &all, &|_l| ALL_KEYS.to_vec(), opts, family_intermediates(), |_l, k, m, _mode, out| {
             if k == KeyCode::NumpadLock && m & M_RCTRL2 != 0 {
                 // the second half of the Pause sequence: the statement of C04/C14 names this press PauseBreak
@@ -1314,18 +1378,19 @@ pub fn c17(ctx: &mut Ctx) -> (u64, String) {
                 for m in &probe_mods {
                     macro_rules! body {
                         ($d:expr, $mk:expr, $spec:expr) => {{
-                            let mut d = $d;
-                            let prep = guarded(|| {
-                                for (k, s) in &paths[*m as usize] {
-                                    let _ = d.process_keyevent(KeyEvent::new(*k, *s));
-                                }
-                                let _ = d.change_layout($mk);
-                            });
-                            if prep.is_err() {
-                                continue;
-                            }
                             for k in ALL_KEYS {
                                 if is_modifier_key(k) {
+                                    continue;
+                                }
+                                // a fresh decoder for every key: the recorded replay is exactly what was executed
+                                let mut d = $d;
+                                let prep = guarded(|| {
+                                    for (k, s) in &paths[*m as usize] {
+                                        let _ = d.process_keyevent(KeyEvent::new(*k, *s));
+                                    }
+                                    let _ = d.change_layout($mk);
+                                });
+                                if prep.is_err() {
                                     continue;
                                 }
                                 let got = guarded(|| d.process_keyevent(KeyEvent::new(k, KeyState::Down)));
@@ -1357,6 +1422,89 @@ pub fn c17(ctx: &mut Ctx) -> (u64, String) {
     }
     ctx.evaluations += n;
     ctx.part("replay:change_layout over all 10x10 ordered pairs, both wrapper forms", json!({"modifier_states_probed": probe_mods.len(), "presses_checked": n}));
+    // chains of switches: from every variant, every sequence of 2 (and 3) further change_layout calls; the decoder must
+    // answer as the LAST variant installed (a decoder that honours only the first switch, or that toggles, passes every
+    // single-switch check)
+    {
+        let plain: Vec<KeyCode> = ALL_KEYS.iter().copied().filter(|k| !is_modifier_key(*k)).collect();
+        let chain_mods = [M_NUM, M_NUM | M_LSHIFT, M_NUM | M_RALT, M_NUM | M_LCTRL, M_NUM | M_CAPS, 0];
+        let max_len = 3usize;
+        let results = par_chunks(100, |pair| {
+            let from = pair / 10;
+            let b1 = pair % 10;
+            let mut n = 0u64;
+            let mut bads: Vec<(bool, Vec<usize>, u16, KeyCode, String, String)> = vec![];
+            let mut chains: Vec<Vec<usize>> = vec![];
+            for b2 in 0..N_LAYOUTS {
+                chains.push(vec![b1, b2]);
+                if max_len >= 3 {
+                    for b3 in 0..N_LAYOUTS {
+                        chains.push(vec![b1, b2, b3]);
+                    }
+                }
+            }
+            for byref in [false, true] {
+                for ch in &chains {
+                    let to = *ch.last().unwrap();
+                    for m in chain_mods {
+                        macro_rules! body {
+                            ($d:expr, $mk:expr) => {{
+                                for k in &plain {
+                                    let mut d = $d;
+                                    let prep = guarded(|| {
+                                        for (k, s) in &paths[m as usize] {
+                                            let _ = d.process_keyevent(KeyEvent::new(*k, *s));
+                                        }
+                                        for l in ch {
+                                            let _ = d.change_layout($mk(*l));
+                                        }
+                                    });
+                                    if prep.is_err() {
+                                        continue;
+                                    }
+                                    let got = guarded(|| d.process_keyevent(KeyEvent::new(*k, KeyState::Down)));
+                                    let want = guarded(|| Some(map_direct(to, *k, &mods_from_bits(m), HandleControl::MapLettersToUnicode)));
+                                    n += 1;
+                                    if got != want && bads.len() < 3 {
+                                        let f = |r: &Result<Option<DecodedKey>, String>| match r {
+                                            Ok(v) => crate::replay::fmt_dk(v),
+                                            Err(p) => p.clone(),
+                                        };
+                                        bads.push((byref, ch.clone(), m, *k, f(&want), f(&got)));
+                                    }
+                                }
+                            }};
+                        }
+                        if byref {
+                            body!(EventDecoder::new(any_static(from), HandleControl::MapLettersToUnicode), any_static);
+                        } else {
+                            body!(EventDecoder::new(any_of(from), HandleControl::MapLettersToUnicode), any_of);
+                        }
+                    }
+                }
+            }
+            (from, n, bads)
+        });
+        let mut n = 0;
+        for (from, c, bads) in results {
+            n += c;
+            for (byref, ch, m, k, want, got) in bads {
+                let spec = if byref { "anyref" } else { "any" };
+                let comp = format!("ed:{}-{}:Map", spec, LAYOUT_NAMES[from]);
+                let mut ops: Vec<Op> = paths[m as usize].iter().map(|(k, s)| Op::Key(*k, *s)).collect();
+                ops.extend(ch.iter().map(|l| Op::Layout(*l as u8)));
+                ops.push(Op::Key(k, KeyState::Down));
+                let names: Vec<&str> = ch.iter().map(|l| LAYOUT_NAMES[*l]).collect();
+                ctx.violation(
+                    &format!("{}:switch-chain/{}->{}/{}", spec, LAYOUT_NAMES[from], names.join("->"), key_name(k)),
+                    &format!("EventDecoder<{}> built with {}: after change_layout to {} in turn, key {:?} with modifiers [{}] must give {} (what {} gives) but gives {}", spec, LAYOUT_NAMES[from], names.join(", "), k, mods_text(m), want, names[names.len() - 1], got),
+                    Replay::one(&comp, ops, &want, Some(got)),
+                );
+            }
+        }
+        ctx.evaluations += n;
+        ctx.part("replay:chains of 2 and 3 change_layout calls from every variant, both wrapper forms", json!({"chains": 100 * (10 + 100), "modifier_states_probed": chain_mods.len(), "presses_checked": n}));
+    }
     // histories X, Y, change_layout(to), X: the second X must be decoded by the new variant (a decoder that remembers
     // earlier look-ups must forget them all when the layout is switched)
     {
